@@ -245,6 +245,7 @@ func init() {
 		"(time.Time).AppendFormat": extTimeAppendFormat,
 		"(time.Time).String":       func(fr *frame, args []value) value { return extTimeFormat(fr, []value{args[0], time.RFC3339Nano}) },
 		"time.Parse":               extTimeParse,
+		"time.Date":                extTimeDate,
 		"time.ParseDuration":       extParseDuration,
 		"(time.Duration).String": func(fr *frame, args []value) value {
 			return time.Duration(concInt(fr, args[0], "Duration.String")).String()
@@ -984,6 +985,20 @@ func extTimeParse(fr *frame, args []value) value {
 		return tuple{timeVal{ns: x.lower(ns, types.Int64)}, iface{}}
 	}
 	panic("time.Parse")
+}
+
+// time.Date with concrete fields (normalising, as the library does); the
+// location is taken to be UTC.
+func extTimeDate(fr *frame, args []value) value {
+	var f [7]int
+	for k := 0; k < 7; k++ {
+		f[k] = int(concInt(fr, args[k], "time.Date field"))
+	}
+	// args[7] (*time.Location) is not inspected: package time's variables are
+	// not initialised in this interpreter (time.UTC reads as nil) and UTC is
+	// the only location the modelled time knows
+	t := time.Date(f[0], time.Month(f[1]), f[2], f[3], f[4], f[5], f[6], time.UTC)
+	return timeVal{ns: t.UnixNano()}
 }
 
 func extParseDuration(fr *frame, args []value) value {
